@@ -538,6 +538,8 @@ func checkC18(w *World, r *Report) {
 		}
 	}
 
+	r.Rule("R18.11", "a listener's forward address is dialled with its scheme as the network: a +tls forward is refused by the dialler, never resolved to its plain network and dialled in clear", 1)
+	ruleDirectDialUsesSchemeAsNetwork(w, r, "R18.11")
 	r.Rule("R18.10", "a server's Startup, which consumes the +tls marker of its configured address in place, runs at most once per server object (no retry loop on the same object)", 1)
 	c18StartupRunsOncePerServer(w, r)
 	r.Rule("R18.9", "however the DNS server is started, a +tls endpoint gets a TLS listener (ListenAndServe builds it; ActivateAndServe needs one from crypto/tls)", 1)
